@@ -29,6 +29,10 @@ package main
 //   begin / commit / abort   the session's transaction (TransactionManager)
 //   sql <text>               whole database only: one auto-commit statement
 //   pages                    whole database only: page chain of every table heap  "name=first,next,..;..."
+//   racestress <g> <n> [k]   g goroutines, n iterations each of NewPage / UnpinPage(dirty) / DeallocatePage(id,true)
+//                            (every k-th page is kept instead); answers how often the DEALLOCATE_PAGE / REUSE_PAGE
+//                            records of an id do not alternate in the log file
+//   staleowned               ids of the reusable list that a goroutine of the last racestress still owns
 //   state                    nothing but the state fields
 //
 // Answer:  <result> reusable=<ids, list order> flagged=<resident ids with the deallocation flag>
@@ -47,6 +51,7 @@ import (
 	"path/filepath"
 	"sort"
 	"strings"
+	"sync"
 
 	"github.com/ryogrid/SamehadaDB/lib/common"
 	"github.com/ryogrid/SamehadaDB/lib/recovery"
@@ -62,12 +67,13 @@ import (
 func init() { subcommands["pagealloc"] = runPageAlloc }
 
 type paSession struct {
-	dir     string
-	base    string // <dir>/<name>
-	shi     *samehada.SamehadaInstance
-	db      *samehada.SamehadaDB
-	handles map[int64]*page.Page
-	txn     *access.Transaction
+	dir        string
+	base       string // <dir>/<name>
+	shi        *samehada.SamehadaInstance
+	db         *samehada.SamehadaDB
+	handles    map[int64]*page.Page
+	txn        *access.Transaction
+	raceOwners map[int64]bool
 }
 
 func paFilePages(path string) int64 {
@@ -225,6 +231,55 @@ func (s *paSession) tables() string {
 	}
 	sort.Strings(out)
 	return strings.Join(out, ";")
+}
+
+func paRaceStress(s *paSession, ng, iters, keep int) string {
+	bpm := s.bpm()
+	done := make(chan bool, ng)
+	var mu sync.Mutex
+	s.raceOwners = map[int64]bool{}
+	for g := 0; g < ng; g++ {
+		go func(g int) {
+			defer func() { recover(); done <- true }()
+			for i := 0; i < iters; i++ {
+				pg := bpm.NewPage()
+				if pg == nil {
+					continue
+				}
+				id := pg.GetPageID()
+				bpm.UnpinPage(id, true)
+				if keep > 0 && (i+g)%keep == 0 {
+					// this page stays owned (a heap page, say): it is never given back
+					mu.Lock()
+					s.raceOwners[int64(id)] = true
+					mu.Unlock()
+					continue
+				}
+				bpm.DeallocatePage(id, true)
+			}
+		}(g)
+	}
+	for g := 0; g < ng; g++ {
+		<-done
+	}
+	s.shi.GetLogManager().Flush()
+	last := map[string]byte{}
+	viol, first := 0, ""
+	for _, r := range strings.Split(paLogRecords(s.base+".log"), ",") {
+		if r == "" || r[0] == 'H' {
+			continue
+		}
+		id := r[1:]
+		prev, seen := last[id]
+		if (!seen && r[0] == 'R') || (seen && prev == r[0]) {
+			viol++
+			if first == "" {
+				first = r
+			}
+		}
+		last[id] = r[0]
+	}
+	return fmt.Sprintf("ok violations=%d first=%s", viol, first)
 }
 
 func runPageAlloc(args []string, in *bufio.Scanner, out *bufio.Writer) {
@@ -395,6 +450,25 @@ func runPageAlloc(args []string, in *bufio.Scanner, out *bufio.Writer) {
 					return "err:nodb"
 				}
 				return "ok tables=" + s.tables()
+			case "racestress":
+				// <goroutines> <iterations>: every goroutine loops NewPage / UnpinPage(dirty) / DeallocatePage(id,true).
+				// In a log written by one thread the DEALLOCATE_PAGE and REUSE_PAGE records of an id alternate (D R D R ..);
+				// a REUSE_PAGE record that comes before the DEALLOCATE_PAGE record of the deallocation it reuses shows up as
+				// "R first" or as two D records in a row.
+				keep := 0
+				if len(f) > 3 {
+					keep = int(atoi64(f[3]))
+				}
+				return paRaceStress(s, int(atoi64(f[1])), int(atoi64(f[2])), keep)
+			case "staleowned":
+				// ids of the reusable list that a goroutine of the last racestress still owns
+				var st []int64
+				for _, p := range s.bpm().GetReusablePageIDs() {
+					if s.raceOwners[int64(p)] {
+						st = append(st, int64(p))
+					}
+				}
+				return fmt.Sprintf("ok owners=%d stale=%s", len(s.raceOwners), paJoin(st))
 			case "state":
 				return "ok"
 			}
